@@ -9,7 +9,7 @@ the list of all decisions.  `Batch.acked` (ghost) = some attempt of the batch wa
 All theorems hold for every configuration (acks ≠ None is built in: every attempt gets a decision or a
 transport error) and every reachable state / accepted event, i.e. every finite event sequence.
 -/
-import KafkaVerif.Lemmas.WriterPlace
+import KafkaVerif.Lemmas.WriterCompl
 
 namespace KV.C01
 open KV KV.Writer
@@ -142,5 +142,100 @@ theorem ok_needs_broker_ack (cfg : Cfg) (s s' : State) (pw b k : Nat) (hs : step
     | acked => rfl
     | lost a => simp [consistent] at hc
     | rejected c => simp [consistent] at hc; exact absurd hc.1.symm hc.2
+
+/-- **completion_once** — the Completion callback is invoked at most once per batch (so at most once per accepted
+message; a message is in exactly the batch `place` names); when a batch is completed and a callback is configured
+it has been invoked exactly once, with the batch's final error — the same outcome WriteMessages reports for every
+message of the batch; without a callback it is never invoked. -/
+theorem completion_once (cfg : Cfg) (s : State) (hr : Reachable cfg s) (b : Nat) (B : Batch) (hB : s.batches b = some B) :
+    B.ncompl ≤ 1 ∧
+    (∀ code, B.done = some code →
+      (cfg.completion = true → B.ncompl = 1 ∧ B.cbCode = some code) ∧ (cfg.completion = false → B.ncompl = 0)) := by
+  have hC := invCompl cfg s hr
+  refine ⟨?_, fun code hd => hC.complDone b B code hB hd⟩
+  cases hd : B.done with
+  | some code =>
+    have := hC.complDone b B code hB hd
+    cases hc : cfg.completion with
+    | true => rw [(this.1 hc).1]; exact Nat.le_refl 1
+    | false => rw [this.2 hc]; exact Nat.zero_le 1
+  | none =>
+    -- not completed: either the sender sits between Completion and complete (one call), or no call was made
+    by_cases hex : ∃ P code, s.pws B.pw = some P ∧ P.sender = .finishing b code true
+    · obtain ⟨P, code, hP, hs⟩ := hex
+      rw [(hC.complOne B.pw P hP b code hs B hB).1]; exact Nat.le_refl 1
+    · have : B.ncompl = 0 := hC.complZero b B hB hd (fun P hP code hs => hex ⟨P, code, hP, hs⟩)
+      rw [this]; exact Nat.zero_le 1
+
+/-- **completion_before_done** — `complete` (closing batch.done, which lets WriteMessages return) is enabled only
+after the Completion callback ran when one is configured, and with the same error. -/
+theorem completion_before_done (cfg : Cfg) (s s' : State) (pw b : Nat) (code : Code)
+    (hs : step cfg s (.complete pw b code) = some s') :
+    ∃ P, s.pws pw = some P ∧ P.sender = .finishing b code cfg.completion := by
+  simp only [step] at hs
+  repeat' split at hs
+  all_goals (first | (cases hs; done) | skip)
+  rename_i _ P hP _ B hB hg
+  exact ⟨P, hP, hg⟩
+
+/-- **dups_only_after_lost_ack** — per batch (a message is in one batch): the number of its copies in the log of its
+partition is (messages of the batch) × (attempts the broker applied); the applied attempts are the ones whose
+acknowledgement was lost plus one if the batch was acknowledged; and no attempt is ever made after an
+acknowledged one.  So a second copy exists only after a lost acknowledgement. -/
+theorem dups_only_after_lost_ack (cfg : Cfg) (s : State) (hr : Reachable cfg s) :
+    (∀ b B, s.batches b = some B →
+      ((s.log B.tp).filter (fun e => e.batch == b)).length = B.napplied * B.msgs.length ∧
+      B.napplied = B.nlost + (if B.acked then 1 else 0)) ∧
+    s.journal.Pairwise (fun j1 j2 => j1.batch = j2.batch → j1.out.applied = true → j1.out = .lost true) := by
+  have hJ := invJournal cfg s hr
+  refine ⟨fun b B hB => ⟨hJ.logCount b B hB, hJ.counts b B hB⟩, ?_⟩
+  refine hJ.journalOnce.imp ?_
+  intro j1 j2 h hb happ
+  have hna := h hb
+  cases ho : j1.out with
+  | acked => exact absurd ho hna
+  | lost a => rw [ho] at happ; simp [BrOut.applied] at happ; rw [happ]
+  | rejected c => rw [ho] at happ; simp [BrOut.applied] at happ
+
+/-- **acked_has_journal_entry** — "acknowledged" is the broker's own record: a batch counts as acknowledged exactly
+when the journal holds an applied-and-acknowledged decision for it on its topic-partition. -/
+theorem acked_has_journal_entry (cfg : Cfg) (s : State) (hr : Reachable cfg s) (b : Nat) (B : Batch) (hB : s.batches b = some B) :
+    B.acked = true ↔ ∃ j ∈ s.journal, j.batch = b ∧ j.out = .acked ∧ j.tp = B.tp := by
+  have hJ := invJournal cfg s hr
+  constructor
+  · exact hJ.ackedJournal b B hB
+  · rintro ⟨j, hj, h1, h2, -⟩
+    obtain ⟨B0, hB0, ha, -⟩ := hJ.journalAcked j hj h2
+    rw [h1, hB] at hB0; cases hB0; exact ha
+
+/-! ### non-vacuity: a concrete run — sync call of two messages to two partitions, one batch needs a retry after a
+lost acknowledgement (duplicate in the log), the other is rejected permanently; the call returns WriteErrors -/
+
+def exCfg : Cfg :=
+  { batchSize := 1, batchBytes := 1000, maxAttempts := 3, async := false, completion := true, topic := "t",
+    retriable := fun c => c == 1003 }
+
+def exTrace : List Event :=
+  [ .enter true, .begin_ 1 [{ size := 45, topic := "" }, { size := 50, topic := "" }],
+    .assign 1 0 ("t", 0), .assign 1 1 ("t", 1), .batch 1,
+    .newPW 1 1 ("t", 0), .newBatch 1 1, .add 1 1 1 0 45, .detach 1 1 .full 0, .qput 1 1 true,
+    .newPW 2 2 ("t", 1), .newBatch 2 2, .add 2 2 1 1 50, .detach 2 2 .full 0, .qput 2 2 true, .batched 1,
+    .qget 1 (some 1), .attempt 1 1 0, .qget 2 (some 2), .attempt 2 2 0,
+    .produce 1 ("t", 0) [(1, 0)] (.lost true), .attemptDone 1 1 0 1003,
+    .produce 2 ("t", 1) [(1, 1)] (.rejected 10), .attemptDone 2 2 0 10, .completion 2 2 10, .complete 2 2 10,
+    .attempt 1 1 1, .produce 1 ("t", 0) [(1, 0)] .acked, .attemptDone 1 1 1 0, .completion 1 1 0, .complete 1 1 0,
+    .ret 1 (.werr [0, 10]) ]
+
+/-- the run is accepted; message (1,0) is twice in t/0 (retry after the lost ack), (1,1) never reached t/1 -/
+example : ((run exCfg State.init exTrace).map (fun s =>
+      ((s.log ("t", 0)).map (·.msg), (s.log ("t", 1)).map (·.msg), s.journal.map (fun j => (j.batch, j.out))))) =
+    some ([(1, 0), (1, 0)], [], [(1, BrOut.lost true), (2, BrOut.rejected 10), (1, BrOut.acked)]) := by decide
+
+/-- the hypotheses of `ack_exact` are satisfiable: a sync call of one message that is acknowledged returns nil -/
+example : (run { exCfg with batchSize := 1 } State.init
+    [ .enter true, .begin_ 1 [{ size := 45, topic := "" }], .assign 1 0 ("t", 0), .batch 1,
+      .newPW 1 1 ("t", 0), .newBatch 1 1, .add 1 1 1 0 45, .detach 1 1 .full 0, .qput 1 1 true, .batched 1,
+      .qget 1 (some 1), .attempt 1 1 0, .produce 1 ("t", 0) [(1, 0)] .acked, .attemptDone 1 1 0 0,
+      .completion 1 1 0, .complete 1 1 0, .ret 1 .ok ]).isSome = true := by decide
 
 end KV.C01
